@@ -40,6 +40,7 @@ Clause(ev) ==
         ELSE IF ev.obs[Len(ev.obs)].txt # ev.slice THEN "copy-text-differs-from-span"
         ELSE IF ~ev.selfcontained THEN "copy-not-a-complete-tree"
         ELSE IF ~(ev.eq1 /\ ev.eq2) THEN "copy-not-equal-to-original"
+        ELSE IF ~ev.claimsame THEN "copy-changes-comment-claimed-flags"
         ELSE "ok"
     ELSE IF ev.op = "edit" THEN
         IF ev.exc THEN (IF ev.obs # stores THEN "refused-edit-changed-something" ELSE "ok")
